@@ -44,6 +44,8 @@ CONSTANTS Peers,            \* remote peers
           ApiClears,        \* ... clears the topic state          (FALSE: P_C16_Api fails)
           ApiNotifies,      \* ... notifies the router             (FALSE: P_C16_Api fails)
           GraftNeedsStream, \* handleGraft requires gs.peers[p]    (FALSE = as found, DESIGN D6: P_C16_Api fails)
+          DrainAfterClose,  \* rpcQueue.Pop keeps handing out the backlog of a CLOSED queue until it is empty
+                            \* (FALSE = the code: Pop on a closed queue fails even when items remain; TRUE: P_C16_Api fails)
           ApiSkipsIfPresent \* blacklistPeer case does nothing when Add reports the peer as already present
                             \* (FALSE = the code; TRUE: P_C16_Api fails for direct Add followed by BlacklistPeer)
 
@@ -52,7 +54,8 @@ VARIABLES
     pend,     \* pend[p]  : connection notification not yet handled by the loop
     dead,     \* dead[p]  : dead-peer notification not yet handled
     q,        \* q[p]     : "none" | "open"  -- p.peers[p]
-    qlen,     \* qlen[p]  : RPCs waiting in the registered queue
+    qlen,     \* qlen[p]  : RPCs waiting in p's queue object (the backlog; it stays in the object when the queue is
+              \*            closed and forgotten by the loop: only the writer still holds the object then)
     strm,     \* strm[p]  : "none" | "opening" | "up"  -- outbound stream (writer goroutine)
     wq,       \* wq[p]    : "none" | "open" | "closed" -- state of the queue object the writer holds
     popped,   \* popped[p]: the writer holds one RPC it has popped but not yet written
@@ -151,7 +154,8 @@ Disconnect(p) ==
     /\ wq' = [wq EXCEPT ![p] = IF strm[p] = "up" THEN "none" ELSE @]
     /\ popped' = [popped EXCEPT ![p] = FALSE]
     /\ topic' = [topic EXCEPT ![p] = FALSE]      \* the inbound stream ends: onClosedIncomingStream
-    /\ UNCHANGED <<pend, q, qlen, mesh, fan, rtpeer, bl, blapi, stage, ever, Mon>>
+    /\ qlen' = [qlen EXCEPT ![p] = IF q[p] = "none" THEN 0 ELSE @]   \* a forgotten queue dies with its writer
+    /\ UNCHANGED <<pend, q, mesh, fan, rtpeer, bl, blapi, stage, ever, Mon>>
 
 \* the remote resets only our outbound stream (connection stays)
 ResetOutbound(p) ==
@@ -159,7 +163,8 @@ ResetOutbound(p) ==
     /\ strm' = [strm EXCEPT ![p] = "none"] /\ wq' = [wq EXCEPT ![p] = "none"]
     /\ popped' = [popped EXCEPT ![p] = FALSE]
     /\ dead' = [dead EXCEPT ![p] = TRUE]
-    /\ UNCHANGED <<net, pend, q, qlen, topic, mesh, fan, rtpeer, bl, blapi, stage, ever, Mon>>
+    /\ qlen' = [qlen EXCEPT ![p] = IF q[p] = "none" THEN 0 ELSE @]
+    /\ UNCHANGED <<net, pend, q, topic, mesh, fan, rtpeer, bl, blapi, stage, ever, Mon>>
 
 \* handleDeadPeers
 HandleDead(p) ==
@@ -205,8 +210,10 @@ Enqueue(p) ==
     /\ qlen' = [qlen EXCEPT ![p] = @ + 1]
     /\ UNCHANGED <<net, pend, dead, q, strm, wq, popped, topic, mesh, fan, rtpeer, bl, blapi, stage, ever, Mon>>
 
+\* Pop: an item, unless the queue is closed (the code tests `closed` first, whatever the queue holds)
 WriterPop(p) ==
-    /\ strm[p] = "up" /\ wq[p] = "open" /\ ~popped[p] /\ qlen[p] > 0
+    /\ strm[p] = "up" /\ ~popped[p] /\ qlen[p] > 0
+    /\ wq[p] = "open" \/ (DrainAfterClose /\ wq[p] = "closed")
     /\ popped' = [popped EXCEPT ![p] = TRUE] /\ qlen' = [qlen EXCEPT ![p] = @ - 1]
     /\ UNCHANGED <<net, pend, dead, q, strm, wq, topic, mesh, fan, rtpeer, bl, blapi, stage, ever, Mon>>
 
@@ -220,8 +227,10 @@ WriterWrite(p) ==
 \* Pop on a closed queue returns an error: the writer closes the stream and exits
 WriterExit(p) ==
     /\ strm[p] = "up" /\ wq[p] = "closed" /\ ~popped[p]
+    /\ DrainAfterClose => qlen[p] = 0
     /\ strm' = [strm EXCEPT ![p] = "none"] /\ wq' = [wq EXCEPT ![p] = "none"]
-    /\ UNCHANGED <<net, pend, dead, q, qlen, popped, topic, mesh, fan, rtpeer, bl, blapi, stage, ever, Mon>>
+    /\ qlen' = [qlen EXCEPT ![p] = IF q[p] = "none" THEN 0 ELSE @]      \* the backlog is dropped with the object
+    /\ UNCHANGED <<net, pend, dead, q, popped, topic, mesh, fan, rtpeer, bl, blapi, stage, ever, Mon>>
 
 -----------------------------------------------------------------------------
 (* blacklisting *)
@@ -237,7 +246,9 @@ Blacklist(p, how) ==
               \* the blacklist (added directly before) must still close its queue and forget it
               /\ IF q[p] = "open" /\ ~(ApiSkipsIfPresent /\ bl[p])
                    THEN /\ q' = [q EXCEPT ![p] = "none"]
-                        /\ qlen' = [qlen EXCEPT ![p] = IF ApiCloses THEN 0 ELSE @]
+                        \* Close only sets the flag: the backlog stays in the object. With no writer attached
+                        \* (stream not established) nobody holds the object any more.
+                        /\ qlen' = [qlen EXCEPT ![p] = IF strm[p] = "up" THEN @ ELSE 0]
                         /\ wq' = [wq EXCEPT ![p] = IF ApiCloses /\ @ = "open" THEN "closed" ELSE @]
                         /\ topic' = [topic EXCEPT ![p] = IF ApiClears THEN FALSE ELSE @]
                         /\ mesh' = [mesh EXCEPT ![p] = IF ApiNotifies THEN FALSE ELSE @]
@@ -344,7 +355,9 @@ P_C16_ApiQueue == \A p \in Peers : blapi[p] => q[p] = "none"
 
 \* positions the blacklisting can find the peer in (used by the generator and as reachability witnesses)
 Pos(p) ==
-    CASE strm[p] = "up" /\ popped[p] /\ mesh[p]          -> "gated"
+    CASE strm[p] = "up" /\ popped[p] /\ qlen[p] > 0 /\ mesh[p] -> "gated-mesh"    \* writer inside Write, backlog queued
+      [] strm[p] = "up" /\ popped[p] /\ qlen[p] > 0 /\ fan[p]  -> "gated-fanout"
+      [] strm[p] = "up" /\ popped[p] /\ qlen[p] > 0            -> "gated-topic"   \* plain topic / floodsub / direct peer
       [] strm[p] = "up" /\ mesh[p]                       -> "mesh"
       [] strm[p] = "up" /\ fan[p]                        -> "fanout"
       [] strm[p] = "up"                                  -> "conn"
